@@ -123,6 +123,11 @@ def check_rolling(case, ctx):
     # centres: regular grid over the region shrunk by size/2 on each side
     we = (region[0] + size / 2, region[1] - size / 2)
     wn = (region[2] + size / 2, region[3] - size / 2)
+    # a window as large as the region: round-off may make the two bounds cross by a few ulps; the centres then sit on the region's centre line
+    if we[0] > we[1]:
+        we = ((region[0] + region[1]) / 2,) * 2
+    if wn[0] > wn[1]:
+        wn = ((region[2] + region[3]) / 2,) * 2
     ctx.check(np.all(ce == ce[0:1, :]) and np.all(cn == cn[:, 0:1]), "centres are not a meshgrid")
     if "shape" in case:
         me = line_models(we[0], we[1], size=case["shape"][1])
